@@ -226,6 +226,27 @@ func c08Chunks(tier string) []SeqChunk {
 			}})
 		}
 	}
+	// the same cube walked with the total moving while current and width stand still (a bar of dynamic total between
+	// two frames): one filler instance draws all of it, so anything it remembers from the previous frame shows
+	for _, st := range c08Styles {
+		st := st
+		for _, w := range widths {
+			w := w
+			chunks = append(chunks, SeqChunk{Name: fmt.Sprintf("c08-cube-total-moves-%s-w%d", st.name, w), Gen: func(env *SeqEnv) {
+				filler := st.build()
+				st2 := st
+				st2.name = st.name + "/total-moves"
+				for cur := int64(-1); cur <= hi; cur++ {
+					for _, refill := range []int64{0, cur / 2} {
+						for total := int64(-1); total <= hi; total++ {
+							prev := -1
+							c08Case(env, st2, filler, w, total, cur, refill, &prev)
+						}
+					}
+				}
+			}})
+		}
+	}
 	lat := c08Lattice(tier)
 	lw := []int{3, 12, 100}
 	if tier == "thorough" {
